@@ -9,6 +9,7 @@ import (
 	"encoding/asn1"
 	"fmt"
 	"math/big"
+	"strings"
 )
 
 func ecdsaSignRaw(key *ecdsa.PrivateKey, digest []byte) (*big.Int, *big.Int, error) {
@@ -290,7 +291,7 @@ func genKeyRT(r *rng, n int, p func(string, ...any)) {
 					}
 					ex := ""
 					if r.chance(1, 3) {
-						ex = " +"
+						ex = r.pick2s([]string{" +", " +1", " +9", " +12", " +13", " +20"})
 					}
 					p("keyrt %s %s %s %s%s", cn, hexs(coordOfLen(r, lx)), hexs(coordOfLen(r, ly)), d, ex)
 				}
@@ -315,10 +316,37 @@ func genKeyRT(r *rng, n int, p func(string, ...any)) {
 		priv := ed25519.NewKeyFromSeed(seed[:])
 		ex := ""
 		if r.chance(1, 3) {
-			ex = " +"
+			ex = r.pick2s([]string{" +", " +10", " +11", " +12", " +13", " +14", " +25"})
 		}
 		p("keyrt ed %s - %s%s", hexs(priv[32:]), hexs(seed[:]), ex)
 		p("keyrt ed %s - -%s", hexs(priv[32:]), ex)
+	}
+	// one Key variable decoded into repeatedly: restrictions / parameters of an earlier key must
+	// not survive into a later one
+	mkKey := func(ops *W, priv bool, extra bool) string {
+		k := &keyFields{kty: wInt(1), crv: wInt(6), x: wBstr(r.bytes(32)), ops: ops}
+		if priv {
+			k.d = wBstr(r.bytes(32))
+		}
+		if extra {
+			k.extra = []*W{wTstr("ext"), wInt(5)}
+			k.kid = wBstr([]byte{1})
+			k.biv = wBstr([]byte{2})
+		}
+		return hexs(k.wire(nil).enc())
+	}
+	minimal := hexs(wMap(wInt(1), wInt(1), wInt(3), wInt(-8)).enc())
+	for i := 0; i < 6; i++ {
+		seqs := [][]string{
+			{mkKey(wArr(wInt(1)), true, true), mkKey(nil, false, false)},
+			{mkKey(wArr(wInt(2)), false, true), mkKey(nil, true, false)},
+			{mkKey(nil, true, true), minimal},
+			{mkKey(wArr(), true, false), mkKey(nil, true, false), mkKey(wArr(wInt(1), wInt(2)), true, true), mkKey(nil, false, false)},
+			{minimal, mkKey(nil, true, true), minimal},
+		}
+		for _, sq := range seqs {
+			p("khist %s", strings.Join(sq, ","))
+		}
 	}
 	_ = elliptic.P256
 }
